@@ -163,11 +163,19 @@ def _event_case(rng, name, o, d, z, extra_req, call_fn, descr, fmt=tinst):
 def gen_events(rng, n, tier="quick"):
     """dawn sunrise sunset dusk time_at_elevation noon midnight"""
     prev = None
+    from astral import Observer as _Obs
+    shared = _Obs(10.0, 20.0, 0.0)     # ONE object, re-used and re-assigned between calls
     for i in range(n):
         d0 = gens.rand_date(rng)
         z = zones.rand_zone(rng, d0)
         d = gens.rand_date(rng, z) if z.iana else d0
         o = gens.rand_observer(rng)
+        if rng.random() < 0.2:
+            # the same Observer object with some attributes assigned anew: anything memoised on
+            # the object (or keyed by its identity) goes stale
+            for attr in rng.sample(["latitude", "longitude", "elevation"], rng.randint(1, 3)):
+                setattr(shared, attr, getattr(o, attr))
+            o = shared
         k = i % 9
         if prev is not None and rng.random() < 0.3:
             # same place, same date, same function as an earlier call, asked again in another
